@@ -19,7 +19,7 @@ def plan(tier):
 
 
 def relevant(mm, sess, runs):
-    return mm['kind'] == 'conformance' and 'plain' not in runs and any(r.startswith('gc') for r in runs)
+    return mm['kind'] == 'abort' or (mm['kind'] == 'conformance' and 'plain' not in runs and any(r.startswith('gc') for r in runs))
 
 
 @props.prop('C03')
